@@ -47,6 +47,17 @@ type Solver struct {
 	since      int // definitions sent since start (restart when large)
 	lastErr    string
 	seed       int
+	// context mirror for the fallback solver
+	decls    []string
+	asserts  [][]string
+	fb       *exec.Cmd
+	fbIn     *bufio.Writer
+	fbOut    *bufio.Reader
+	fbDecls  int
+	fbBin    string
+	fbMs     int
+	FbStats  SolverStats
+	quickMs  int
 }
 
 func NewSolver(bin string, timeoutMs int, transcriptPath string) (*Solver, error) {
@@ -85,8 +96,112 @@ func (s *Solver) start() error {
 	s.declared = make(map[string]bool)
 	s.depth = 0
 	s.since = 0
+	s.decls = nil
+	s.asserts = [][]string{nil}
+	s.closeFallback()
 	s.send("(set-option :global-declarations true)")
+	if s.seed != 0 {
+		s.send(fmt.Sprintf("(set-option :sat.random_seed %d)", s.seed))
+	}
 	return nil
+}
+
+func (s *Solver) closeFallback() {
+	if s.fb != nil {
+		s.fb.Process.Kill()
+		s.fb.Wait()
+		s.fb = nil
+	}
+}
+
+// fallbackCheck decides the current context (all assertions on the stack,
+// extras included) with the second solver: cvc5 translating bit-vector
+// arithmetic to integer arithmetic modulo 2^k, which decides wrap-around
+// length arithmetic that bit-blasting does not finish.
+func (s *Solver) fallbackCheck(vars []*Term) (SatResult, Model) {
+	start := time.Now()
+	defer func() {
+		s.FbStats.Queries++
+		s.FbStats.Time += time.Since(start)
+	}()
+	if s.fb == nil {
+		ms := s.fbMs
+		if ms == 0 {
+			ms = 60000
+		}
+		cmd := exec.Command("cvc5", "--incremental", "--produce-models", "--solve-bv-as-int=sum", fmt.Sprintf("--tlimit-per=%d", ms))
+		w, err := cmd.StdinPipe()
+		if err != nil {
+			return Unknown, nil
+		}
+		r, err := cmd.StdoutPipe()
+		if err != nil {
+			return Unknown, nil
+		}
+		cmd.Stderr = nil
+		if err := cmd.Start(); err != nil {
+			s.lastErr = "cannot start cvc5: " + err.Error()
+			return Unknown, nil
+		}
+		s.fb, s.fbIn, s.fbOut = cmd, bufio.NewWriterSize(w, 1<<16), bufio.NewReaderSize(r, 1<<16)
+		s.fbDecls = 0
+		s.fbIn.WriteString("(set-logic ALL)\n(set-option :global-declarations true)\n")
+	}
+	for ; s.fbDecls < len(s.decls); s.fbDecls++ {
+		s.fbIn.WriteString(s.decls[s.fbDecls])
+		s.fbIn.WriteByte('\n')
+	}
+	s.fbIn.WriteString("(push)\n")
+	for _, lvl := range s.asserts {
+		for _, a := range lvl {
+			s.fbIn.WriteString(a)
+			s.fbIn.WriteByte('\n')
+		}
+	}
+	s.fbIn.WriteString("(check-sat)\n")
+	s.fbIn.Flush()
+	ans, err := readSexpFrom(s.fbOut)
+	res := Unknown
+	switch {
+	case err != nil:
+		s.lastErr = "cvc5: " + err.Error()
+		s.closeFallback()
+		return Unknown, nil
+	case ans == "sat":
+		res = Sat
+	case ans == "unsat":
+		res = Unsat
+	default:
+		s.lastErr = "cvc5: " + ans
+	}
+	var m Model
+	if res == Sat && len(vars) > 0 {
+		var names []string
+		for _, v := range vars {
+			names = append(names, v.ref())
+		}
+		s.fbIn.WriteString("(get-value (" + strings.Join(names, " ") + "))\n")
+		s.fbIn.Flush()
+		txt, err := readSexpFrom(s.fbOut)
+		if err != nil || strings.Contains(txt, "(error") {
+			res = Unknown
+			s.lastErr = "cvc5 get-value: " + txt
+		} else if m = parseModel(txt, vars); m == nil {
+			res = Unknown
+			s.lastErr = "cvc5: unparsable model: " + txt
+		}
+	}
+	s.fbIn.WriteString("(pop)\n")
+	s.fbIn.Flush()
+	switch res {
+	case Sat:
+		s.FbStats.Sat++
+	case Unsat:
+		s.FbStats.Unsat++
+	default:
+		s.FbStats.Unknown++
+	}
+	return res, m
 }
 
 func (s *Solver) Close() {
@@ -97,6 +212,7 @@ func (s *Solver) Close() {
 		s.cmd.Wait()
 		s.cmd = nil
 	}
+	s.closeFallback()
 	if s.transcript != nil {
 		s.transcript.Flush()
 		s.tfile.Close()
@@ -120,6 +236,11 @@ func (s *Solver) Restart() error {
 	return s.start()
 }
 
+func (s *Solver) sendDecl(line string) {
+	s.decls = append(s.decls, line)
+	s.send(line)
+}
+
 func (s *Solver) send(line string) {
 	s.in.WriteString(line)
 	s.in.WriteByte('\n')
@@ -132,11 +253,15 @@ func (s *Solver) send(line string) {
 // readSexp reads one answer: a bare word line or a balanced s-expression.
 func (s *Solver) readSexp() (string, error) {
 	s.in.Flush()
+	return readSexpFrom(s.out)
+}
+
+func readSexpFrom(out *bufio.Reader) (string, error) {
 	var sb strings.Builder
 	depth := 0
 	started := false
 	for {
-		line, err := s.out.ReadString('\n')
+		line, err := out.ReadString('\n')
 		if err != nil && line == "" {
 			if err == io.EOF {
 				return sb.String(), fmt.Errorf("solver closed its output")
@@ -205,7 +330,7 @@ func (s *Solver) define(t *Term) {
 		if f.done {
 			s.defined[x.id] = true
 			s.since++
-			s.send(fmt.Sprintf("(define-fun t%d () %s %s)", x.id, sortOf(x.W), x.body()))
+			s.sendDecl(fmt.Sprintf("(define-fun t%d () %s %s)", x.id, sortOf(x.W), x.body()))
 			continue
 		}
 		stack = append(stack, fr{x, true})
@@ -221,23 +346,25 @@ func (s *Solver) define(t *Term) {
 func (s *Solver) declareVar(t *Term) {
 	s.declared[t.Name] = true
 	if t.W == 0 || (t.lo == 0 && t.hi == mask(t.W)) {
-		s.send(fmt.Sprintf("(declare-const %s %s)", t.Name, sortOf(t.W)))
+		s.sendDecl(fmt.Sprintf("(declare-const %s %s)", t.Name, sortOf(t.W)))
 		return
 	}
 	raw := t.Name + "_raw"
-	s.send(fmt.Sprintf("(declare-const %s %s)", raw, sortOf(t.W)))
-	s.send(fmt.Sprintf("(define-fun %s () %s (ite (and (bvule %s %s) (bvule %s %s)) %s %s))", t.Name, sortOf(t.W),
+	s.sendDecl(fmt.Sprintf("(declare-const %s %s)", raw, sortOf(t.W)))
+	s.sendDecl(fmt.Sprintf("(define-fun %s () %s (ite (and (bvule %s %s) (bvule %s %s)) %s %s))", t.Name, sortOf(t.W),
 		bvLit(t.W, t.lo), raw, raw, bvLit(t.W, t.hi), raw, bvLit(t.W, t.lo)))
 }
 
 func (s *Solver) Push() {
 	s.send("(push)")
 	s.depth++
+	s.asserts = append(s.asserts, nil)
 }
 
 func (s *Solver) Pop() {
 	s.send("(pop)")
 	s.depth--
+	s.asserts = s.asserts[:len(s.asserts)-1]
 }
 
 func (s *Solver) Assert(t *Term) {
@@ -245,7 +372,12 @@ func (s *Solver) Assert(t *Term) {
 		return
 	}
 	s.define(t)
-	s.send("(assert " + t.ref() + ")")
+	line := "(assert " + t.ref() + ")"
+	if len(s.asserts) == 0 {
+		s.asserts = append(s.asserts, nil)
+	}
+	s.asserts[len(s.asserts)-1] = append(s.asserts[len(s.asserts)-1], line)
+	s.send(line)
 }
 
 // Check asks whether the current assertions plus extra are satisfiable.
@@ -264,7 +396,11 @@ func (s *Solver) Check(extra []*Term, vars []*Term) (SatResult, Model) {
 	for _, v := range vars {
 		s.define(v)
 	}
-	s.send(fmt.Sprintf("(check-sat-using (try-for qfbv %d))", s.timeoutMs))
+	qms := s.timeoutMs
+	if s.quickMs > 0 && s.quickMs < qms {
+		qms = s.quickMs
+	}
+	s.send(fmt.Sprintf("(check-sat-using (try-for qfbv %d))", qms))
 	ans, err := s.readSexp()
 	res := Unknown
 	switch {
@@ -277,10 +413,32 @@ func (s *Solver) Check(extra []*Term, vars []*Term) (SatResult, Model) {
 	default:
 		s.lastErr = ans
 	}
+	var m Model
+	if res == Unknown && err == nil && s.fbBin != "" {
+		res, m = s.fallbackCheck(vars)
+		if s.transcript != nil {
+			fmt.Fprintf(s.transcript, "; => %s (fallback)\n", res)
+		}
+		s.Pop()
+		d := time.Since(start)
+		s.Stats.Queries++
+		s.Stats.Time += d
+		if d > s.Stats.MaxQuery {
+			s.Stats.MaxQuery = d
+		}
+		switch res {
+		case Sat:
+			s.Stats.Sat++
+		case Unsat:
+			s.Stats.Unsat++
+		default:
+			s.Stats.Unknown++
+		}
+		return res, m
+	}
 	if s.transcript != nil {
 		fmt.Fprintf(s.transcript, "; => %s\n", res)
 	}
-	var m Model
 	if res == Sat && len(vars) > 0 {
 		var names []string
 		for _, v := range vars {
